@@ -35,6 +35,12 @@ TEXT = {
  "C10": ("seeded deterministic simulation on a fake clock; oracle: reference timeout grammar, value <= remaining with bounded loss, handler deadline == arrival + value exactly",
          "Only decidable with a controlled clock: with real time the remaining time changes between context creation and header encoding. The duration and string domains are sampled by seeded, stratified generation (every unit x digit-count boundary), not enumerated.",
          "5 C10"),
+ "C03": ("deterministic simulation with enumerated transport segmentation: recorded exchanges re-delivered to the real receiver under every split of the bounded bodies",
+         "Fault enumeration: for each explored exchange the segmentation space is enumerated completely for small bodies (all 2^(n-1) splits) and by a fixed adversarial family for larger ones; the exchanges themselves are sampled by seed, so completeness holds per exchange over the stated family, not over all bodies.",
+         "5 C03"),
+ "C04": ("deterministic simulation with enumerated crash points: every cut offset x end condition x trailers of recorded exchanges, plus failure of the k-th write",
+         "Fault enumeration: every byte offset of every explored body (bounded size) x every end condition is delivered to the real client / handler; 'terminator arrived' is computed by the independent reference codec from the delivered prefix. Exchanges are sampled by seed.",
+         "5 C04"),
 }
 
 hooks_commits = subprocess.run(["git", "-C", "/repo", "log", "--format=%H", "--grep=^verif:"], capture_output=True, text=True).stdout.split()
